@@ -238,3 +238,39 @@ PROPS["C13"]["structural"] = [
     st("transformers/count_feature_compression.py", "CountFeatureCompressionTransformer.transform", "no-mutator"),
     st("transformers/info_weight.py", "information_weight", "kwarg", callee="tocsc", keyword="copy", value="True"),
 ]
+
+import contracts.lot_partitions as _LP
+_PART = sorted(_LP.CONTRACTS)
+PROPS["C08"]["functions"] = _PART
+PROPS["C08"]["level_text"] = ("Deductive (unbounded): every row-blocking loop of linear_optimal_transport.py (9 block loops in lot_vectors_sparse / dense / dense_generator, "
+    "sinkhorn_vectors_sparse and the transform methods, 2 chunk loops in the *_internal kernels) is a partition of [0, n_rows): blocks are consecutive, start at 0, end at "
+    "n_rows, for all n_rows >= 0 and all block sizes >= 1 (so memory_size / block / chunk sizes cannot drop, duplicate or reorder a row). Verified on mechanically extracted "
+    "loop slices (the integer bookkeeping assignments; the rest of each loop body is dropped). Bounded: " + PROPS["C08"]["level_text"])
+PROPS["C08"]["explanation"] = PROPS["C08"]["level_text"]
+PROPS["C12"]["functions"] = PROPS["C12"]["functions"] + _PART
+
+# ---------------------------------------------------------------- functions brought under contract later in the round
+RD = "vectorizers/transformers/row_desnoise.py::"
+NG = "vectorizers/ngram_vectorizer.py::"
+LOT = "vectorizers/linear_optimal_transport.py::"
+_DIST = [D + f for f in ("hellinger", "total_variation", "kantorovich1d", "jensen_shannon_divergence", "symmetric_kl_divergence", "sparse_hellinger")]
+_KL = [IW + f for f in ("column_kl_divergence_exact_prior", "column_kl_divergence_approx_prior", "supervised_column_kl")]
+PROPS["C18"]["functions"] += _DIST
+PROPS["C18"]["level_text"] = PROPS["C18"]["level_text"].replace("Bounded only:", "Also deductive: memory safety of the five dense distances and sparse_hellinger, and float-safety "
+    "obligations for hellinger (every sqrt argument >= 0, every divisor != 0 over the reals, which is what the clamp guarantees). Bounded only:")
+PROPS["C17"]["functions"] = _KL
+PROPS["C17"]["level_text"] = ("Deductive (unbounded): the three column_kl kernels are memory safe under `row indices sorted, duplicate-free and < len(baseline)`; in the exact-prior "
+    "kernel the binary-search position of a row that is present is in range (this is where sortedness is load-bearing). " + PROPS["C17"]["level_text"])
+PROPS["C06"]["functions"] = [NG + "ngrams_of", CU + "sum_coo_entries"]
+PROPS["C06"]["level_text"] = ("Deductive (unbounded): ngrams_of('exact') returns exactly the runs of n consecutive elements in order (length max(0, L-n+1), element g equals "
+    "sequence[g:g+n]), every slice in range for both behaviours; sum_coo_entries returns a non-empty list of strictly increasing (row, col) coordinates. " + PROPS["C06"]["level_text"].replace("Bounded only in this round:", "Bounded:"))
+PROPS["C07"]["functions"] = [LOT + "get_transport_plan"]
+PROPS["C07"]["level_text"] = ("Deductive (unbounded): get_transport_plan reads cell (i, j) of the plan from flow[n_arcs - (i*m + j) - 1], an in-range, injective index (relative to the "
+    "stated contract of pynndescent's 15-line arc_id for use_arc_mixing=False). " + PROPS["C07"]["level_text"].replace("Bounded only in this round:", "Bounded:"))
+PROPS["C11"]["functions"] = [CU + "em_update_matrix"]
+PROPS["C11"]["level_text"] = ("Deductive (unbounded): em_update_matrix is memory safe for any CSR row and any windows/kernels of matching lengths (the searchsorted position is checked "
+    "before use; a positive responsibility is only recorded for a context found in the row), writes only posterior_data and returns it. " + PROPS["C11"]["level_text"].replace("Bounded only in this round:", "Bounded:"))
+PROPS["C12"]["functions"] += [RD + "numba_multinomial_em_sparse"]
+PROPS["C10"]["functions"] += [CU + "em_update_matrix", CU + "sum_coo_entries", NG + "ngrams_of", RD + "numba_multinomial_em_sparse", LOT + "get_transport_plan"] + _DIST + _KL
+for _p in ("C06", "C07", "C11", "C17", "C18"):
+    PROPS[_p]["explanation"] = PROPS[_p]["level_text"]
